@@ -622,6 +622,15 @@ func runC07(w *vx.W) {
 			fitmodel.Data(1, fitmodel.PutUint(d1.Order(), bsB, 6)))
 		feed(fmt.Sprintf("delta-field:%v.%d", e.Mesg, e.Num), fitmodel.File(fitmodel.DefaultHeader, parts...), "")
 	}
+	// (11) every protocol-version byte 0x00..0x3F in the header (12- and 14-byte): a version Decode accepts is a
+	// version Encode must be able to write back
+	for pv := 0; pv < 0x40; pv++ {
+		for _, h := range []fitmodel.Header{hdr12(), hdr14()} {
+			h.Proto = byte(pv)
+			parts := append(fitmodel.FileIdRecords(0, 4), recordDef(1, false).Bytes(), recordData(1, false, 1000000000, 60, 5))
+			feed(fmt.Sprintf("protocol-version:%#02x/header%d", pv, h.Size), fitmodel.File(h, parts...), "")
+		}
+	}
 	// (9) every file_id.type byte: whatever type Decode accepts must be a type Encode can write
 	for t := 0; t < 256; t++ {
 		parts := append(fitmodel.FileIdRecords(0, byte(t)), recordDef(1, false).Bytes(), recordData(1, false, 1000000000, 60, 5))
